@@ -8,7 +8,7 @@ ID = "C08"
 GEN_TAGS = ["PolyGen"]
 PROOF_TARGETS = ["proofs/PolyInterpAlg.vo", "proofs/PolyInterpBase.vo", "proofs/PolyInterpProofs.vo",
                  "proofs/PolyDeepenDiv.vo", "proofs/PolyDeepenInterp.vo", "proofs/PolyDeepenNewton.vo",
-                 "proofs/PolyDeepenFmci.vo", "proofs/PolyDeepenBary.vo"]
+                 "proofs/PolyDeepenFmci.vo", "proofs/PolyDeepenBary.vo", "proofs/PolyDeepenColinear.vo", "proofs/PolyDeepenCodec.vo"]
 PROPS_FILE = "props/C08.v"
 EXTRA_PROPS_FILES = ["props/C08b.v"]
 EXTRACT = "extract/ExtractC08.vo"
@@ -54,6 +54,22 @@ ASSUMPTIONS = [
     "theorems that go through reduce / fast_reduce / reduce_by_ntt_friendly_modulus carry the C09 statements as hypotheses "
     "(red_exact, fred_exact, rbnf_exact): C09_fast_reduce_full is not proved yet; the division family is modelled a second "
     "time in coq/model/PolyInterp.v (pint_ names) because coq/model/PolyDiv.v appeared late - unifying the two is future work",
+    "UPDATE (deepening, props/C08b.v, proofs/PolyDeepen*.v): the two models of the division family are tied by theorem "
+    "(C08_division_family_agrees: whenever the C09 model returns Some r the pint_ copy returns the same), so the C09 theorems "
+    "apply to the copy the C08 routines call; red_exact / fred_exact / rbnf_exact are THEOREMS for BFieldElement in their "
+    "bounded form (modulus degree <= 2^29: C08_bfe_c09_hypotheses; the unbounded forms cannot hold for a concrete ntt). Every "
+    "C08 strategy for Polynomial<BFieldElement> is now unconditional for point lists of at most 2^29 points: C08_bfe_* for "
+    "dac / batch / par_batch evaluation, interpolate / fast_interpolate / par_* / batch_fast_interpolate(_with_memoization), "
+    "naive / fast / dispatching / batch coset extrapolation. fast_modular_coset_interpolate is proved for EVERY codeword "
+    "length including the even/odd recursion above 2^17 and the totality and correctness of its preprocessing "
+    "(C08_fmci_spec generic, C08_bfe_fast_modular_coset_interpolate, C08_bfe_fmci_preprocess_total); barycentric_evaluate "
+    "(C08_barycentric_spec, C08_bfe_barycentric_evaluate, the formula itself C08_barycentric_formula); are_colinear_3 / "
+    "are_colinear / get_colinear_y (C08_are_colinear*, C08_get_colinear_y); polynomial codec round trip and Display degree "
+    "logic (C08_poly_decode_encode, C08_display_*). The placeholders C08_fmci_full / C08_barycentric_full of props/C08.v stay "
+    "Definitions: as stated they lack hypotheses the proofs need (reduce must return THE remainder, not only a congruent "
+    "polynomial, so that products stay in the range of multiply; compatibility wr(l+1)^2 = wr(l) of the roots; base-field "
+    "arithmetic on offsets and `slift` denote field arithmetic) - the proved theorems state them explicitly and discharge "
+    "them for BFieldElement. Still open: the XFieldElement instances of the C08 strategies",
 ]
 RULE = ("n in {0,1,2,15,16,17,99,100,101,255,256,257} (thorough: 4095,4096,4097,8192) for every zerofier and interpolation "
         "strategy over arithmetic-progression, geometric-progression and random duplicate-free domains, duplicate abscissae, "
